@@ -225,7 +225,25 @@ impl CharacterCategories for char {
     #[verifier::external_body] fn is_separator_space(self) -> (r: bool) { unimplemented!() }
     #[verifier::external_body] fn is_punctuation(self) -> (r: bool) { unimplemented!() }
 }
-pub assume_specification[ char::is_alphabetic ](c: char) -> (r: bool);
+/// what `char::is_alphabetic` answers (the Unicode Alphabetic property); otherwise unspecified
+pub uninterp spec fn letter_spec(c: char) -> bool;
+pub assume_specification[ char::is_alphabetic ](c: char) -> (r: bool) ensures r == letter_spec(c);
+/// C05: a letter or a digit ("content" in the sense of the property statement)
+pub open spec fn alnum(c: char) -> bool { letter_spec(c) || ('0' <= c && c <= '9') }
+// (U1) TRUSTED Unicode fact: the general categories are disjoint — a space separator (Zs) or a punctuation character (P*) is
+// neither alphabetic nor an ASCII digit; (U2) the ASCII control and symbol characters the lexer treats specially are not alphabetic
+pub broadcast axiom fn axiom_unicode_disjoint(c: char)
+    requires sep_space_spec(c) || punct_spec(c)
+    ensures !#[trigger] alnum(c);
+pub broadcast axiom fn axiom_ascii_symbols(c: char)
+    requires c == '\t' || c == '\n' || c == '\r' || c == '>' || c == ':' || c == '@' || c == '#' || c == '~' || c == '?' || c == '+' || c == '-'
+        || c == '/' || c == '*' || c == '&' || c == '|' || c == '=' || c == '%' || c == '{' || c == '}' || c == '(' || c == ')' || c == '.'
+    ensures !#[trigger] alnum(c);
+/// C05: token kinds that cannot hold a letter or a digit (everything but Word, Int, ZeroInt, Escaped and the two comments)
+pub open spec fn blank_kind(k: TokenKind) -> bool {
+    is_one_char_kind(k) || k == TokenKind::MetadataStart || k == TokenKind::Newline || k == TokenKind::Whitespace
+        || k == TokenKind::Punctuation || k == TokenKind::Eof
+}
 pub assume_specification[ char::is_ascii_digit ](c: &char) -> (r: bool) ensures r == ('0' <= *c && *c <= '9');
 
 // ---- src/lexer/mod.rs -----------------------------------------------------------------
@@ -293,19 +311,22 @@ pub open spec fn shape(k: TokenKind, e: Seq<char>, rest: Seq<char>) -> bool {
     // a line comment is `--` up to, not including, the end of the line
     &&& (k == TokenKind::LineComment ==> e.len() >= 2 && e[0] == '-' && e[1] == '-' && (forall|i: int| 2 <= i < e.len() ==> #[trigger] e[i] != '\n')
             && (rest.len() > 0 ==> rest[0] == '\n'))
-    &&& (k == TokenKind::Punctuation ==> e.len() == 1)
+    &&& (k == TokenKind::Punctuation ==> e.len() == 1 && punct_spec(e[0]))
+    &&& (k == TokenKind::Whitespace ==> forall|i: int| 0 <= i < e.len() ==> ws_spec(#[trigger] e[i]))
     // a block comment ends at the first `-]`
     &&& (k == TokenKind::BlockComment ==> e[0] == '[' && bc_ok(e, 0, rest.len() == 0))
 }
 impl Cursor<'_> {
 /*@ fn src/lexer/mod.rs Cursor::advance_token
-tags C03 C04 C17
+tags C03 C04 C05 C17
 ret token
 spec:
         requires old(self).at_start(), utf8len(old(self).rem()) <= u32::MAX,
         ensures final(self).at_start(), suffix(old(self).rem(), final(self).rem()),
             final(self).rem().len() <= old(self).rem().len(),
             shape(token.kind, eaten(old(self).rem(), final(self).rem()), final(self).rem()),     // [C17] [C04] [C05]
+            // [C05] every letter and digit of the input lies in a Word, Int, ZeroInt or Escaped token, or in a comment
+            blank_kind(token.kind) ==> forall|i: int| 0 <= i < eaten(old(self).rem(), final(self).rem()).len() ==> !alnum(#[trigger] eaten(old(self).rem(), final(self).rem())[i]),     // [C05]
             token.len == utf8len(old(self).rem()) - utf8len(final(self).rem()),   // [C04] [C05]
             (token.kind == TokenKind::Eof) == (old(self).rem().len() == 0),
             old(self).rem().len() > 0 ==> token.len >= 1,                          // [C03] [C04]
@@ -333,7 +354,17 @@ before `let token = Token::new(token_kind, self.pos_within_token());`:
             }
             if token_kind == TokenKind::MetadataStart { assert(e =~= seq!['>', '>']); }
             if token_kind == TokenKind::Newline { assert(e =~= seq!['\n'] || e =~= seq!['\r', '\n']); }   // [C17] LF and CRLF are exactly one Newline token
+            if token_kind == TokenKind::Whitespace {
+                assert forall|i: int| 0 <= i < e.len() implies ws_spec(#[trigger] e[i]) by { if i >= 1 { assert(e[i] == r1[i - 1]); } }
+            }
             assert(shape(token_kind, e, f));   // [C17] [C04] [C05]
+            if blank_kind(token_kind) {
+                broadcast use {axiom_unicode_disjoint, axiom_ascii_symbols};
+                assert forall|i: int| 0 <= i < e.len() implies !alnum(#[trigger] e[i]) by {
+                    if token_kind == TokenKind::Whitespace { assert(ws_spec(e[i])); }
+                    if token_kind == TokenKind::Newline || token_kind == TokenKind::MetadataStart { assert(e[i] == '\n' || e[i] == '\r' || e[i] == '>'); }
+                }
+            }
         }
 @*/
 
@@ -396,6 +427,8 @@ spec:
         requires old(self).inv(), old(self).mark() <= u32::MAX,
             ws_spec(old(self).prev_spec()),
         ensures final(self).inv(), final(self).mark() == old(self).mark(), suffix(old(self).rem(), final(self).rem()), r == TokenKind::Whitespace,
+            final(self).rem().len() <= old(self).rem().len(),
+            forall|i: int| 0 <= i < old(self).rem().len() - final(self).rem().len() ==> ws_spec(#[trigger] old(self).rem()[i]),     // [C05] [C17]
 @*/
 
 /*@ fn src/lexer/mod.rs Cursor::number
